@@ -580,7 +580,7 @@ def run(ctx):
 
 
 MANIFEST_ENTRY = {
-    "technique": "static analysis: syn extraction and cross-comparison of the three bound-semantics encodings (parser match, generated patterns, generated float conditions), iteration-order adaptor check, MIR dominance of range validation, MIR cast scan",
-    "level_text": "Structural: the operator tables that define which counts a branch accepts are extracted from the parser and from both code generators on each run and must agree through the fixed meaning of Rust's operators; branch order, validation dominance and lossless literal conversion are decided on the AST/CFG. Nothing is evaluated for concrete numbers.",
+    "technique": "static analysis: abstract evaluation (rules/absint.py) over every range shape and every ordering of count and bounds of the parse-time matcher, the generated integer patterns and the generated float conditions, each compared with the documented range semantics; of Range::new on one spelling per grammar production under the integer and float end rules; of the first-match scan and the fallback analysis; MIR dominance of range validation, MIR cast scan",
+    "level_text": "Structural / finite case analysis: `a..b` excludes b, `a..=b` includes it, open sides are unbounded, the first declared branch wins - decided for the three encodings (parser matcher, generated patterns, generated float conditions) by evaluating the source over all orderings a comparison can distinguish, plus validation dominance and lossless literal conversion on the CFG. No translation is loaded or rendered.",
     "level_note": "Trusted: Rust pattern/RangeBounds semantics; str::parse. Not decided: behaviour at numeric extremes, concrete selections.",
 }
